@@ -210,7 +210,8 @@ def _get_buildout_script_paths(search_path: Path):
 
 def remove_python_path_suffix(path):
     for suffix in all_suffixes() + ['.pyi']:
-        if path.suffix == suffix:
+        # A file called e.g. `..py` has the stem `.`, which is not a file name.
+        if path.suffix == suffix and path.stem != '.':
             path = path.with_name(path.stem)
             break
     return path
